@@ -45,7 +45,7 @@ AR = [
 
 ASSUMPTIONS = [
     "default resolvers only; custom resolver callbacks are outside the property",
-    "abstract alphabet of 30 citation kinds (real objects extracted once from snippets, shallow-copied per position)",
+    "abstract alphabet of 32 citation kinds (real objects extracted once from snippets, shallow-copied per position)",
     "BFS canonical state = (set of full-citation classes seen, placeholder-page count capped at 2, class of last resolution); "
     "soundness of this abstraction is checked by comparing all one-step futures of two representative histories per state",
 ]
@@ -53,7 +53,7 @@ ASSUMPTIONS = [
 
 def rule(pid):
     return (
-        "seq: every sequence of length <= L over the 30-symbol alphabet (and <= L' over the 19 most interacting symbols) "
+        "seq: every sequence of length <= L over the 32-symbol alphabet (and <= L' over the 19 most interacting symbols) "
         "through the real resolve_citations; bfs: explicit-state search over canonical resolver states to fix-point, every "
         "transition executes the real resolver on representative+[event]; docs: lists extracted by get_citations from all "
         "concatenations of <= k ambiguous-document fragments (all prefixes for C08); pumped: every head of <= 3 core symbols followed by "
@@ -62,7 +62,7 @@ def rule(pid):
     )
 
 
-BFS_DROP_QUICK = ("fullU", "fullC3", "fullA0", "fullA3")  # structurally covered by fullP/fullQ and fullC in the sequence parts
+BFS_DROP_QUICK = ("fullU", "fullC3", "fullA0", "fullA3", "lawR1", "lawR2")  # structurally covered by fullP/fullQ and fullC in the sequence parts
 G = {}
 
 
@@ -104,6 +104,7 @@ def shards(tier, seed):
 
 
 PUMP_FILLERS = ["unknown", "fullB", "idNoPin", "law"]
+PUMP_CORE_QUICK = ["fullA0", "fullA", "fullA3", "fullB", "fullP", "shortAmb", "supraFoo", "supraBar", "refJones", "idNoPin"]
 PUMP_LENGTHS = {"quick": [100, 130], "thorough": [64, 100, 130, 257, 520]}
 _TIER = {"t": "quick"}
 
@@ -112,8 +113,11 @@ def pumped_sequences(first, L):
     """Every sequence s (first symbol fixed, |s| <= L over the core alphabet) followed by n copies of a filler
     symbol: long lists whose interesting part is short (size-dependent code paths, e.g. 'large input' modes)."""
     core = R.CORE12
+    small = PUMP_CORE_QUICK if _TIER["t"] == "quick" else core
     for extra in range(0, L):
-        for tail in itertools.product(core, repeat=extra):
+        for tail in itertools.product(core if extra < 2 else small, repeat=extra):
+            if extra == 2 and _TIER["t"] == "quick" and core[first] not in small:
+                continue
             s_ = [core[first]] + list(tail)
             for f in PUMP_FILLERS:
                 for n in PUMP_LENGTHS[_TIER["t"]]:
